@@ -479,6 +479,20 @@ let step st (f : string array) : string list =
     let which = if all then [] else parse_offsets (a 1) in
     st.s <- set_segs st.s (rm_index_at st.s.segs Z0 which all);
     ["ok"]
+  | "idxcut" ->
+    (* the newest index file loses its last k items *)
+    let k = int_of_string (a 1) in
+    let rec cut_last = function
+      | [] -> []
+      | [s] -> [ (match s.sidx with
+          | Some (iv, items) ->
+            let n = List.length items in
+            let keep = max 0 (n - k) in
+            set_idx s (Some (iv, List.filteri (fun i _ -> i < keep) items))
+          | None -> s) ]
+      | s :: r -> s :: cut_last r in
+    st.s <- set_segs st.s (cut_last st.s.segs);
+    ["ok"]
   | "migrate" ->
     (match dir_migrate h (params_of st) (if a 1 = "1" then V1 else V2) st.s with
      | Err e -> [err e]
@@ -1027,7 +1041,7 @@ let run_check (path : string) =
           | Some t when Z.leb m.mtime t -> acc
           | _ -> Some m.mtime) None c.a.live;
       mutated c
-    | ["rmindex"; _] | ["gc"] | ["sleepms"; _] | ["bkclean"; _] -> ()
+    | ["rmindex"; _] | ["idxcut"; _] | ["gc"] | ["sleepms"; _] | ["bkclean"; _] -> ()
     | ["migrate"; v] ->
       (match r with
        | "ok" :: _ ->
